@@ -94,7 +94,11 @@ func cmdVerify(args []string) {
 	view := fs.String("view", "", "verify against the named implementation view of the function")
 	fs.Parse(args)
 	t0 := time.Now()
-	e, err := NewEngine(*repo, "/verif/spec")
+	specDir := "/verif/spec"
+	if sd := os.Getenv("GOVC_SPEC"); sd != "" {
+		specDir = sd // development only: an alternative specification directory
+	}
+	e, err := NewEngine(*repo, specDir)
 	if err != nil {
 		fmt.Fprintln(os.Stderr, err)
 		os.Exit(2)
